@@ -237,7 +237,7 @@ pub fn run(ctx: &Ctx) {
          (b) finite header code spaces enumerated through encode_fixed_size_frame / FrameHeader::new: every block length 1..=32767, every sample rate 1..=96000 (both exhaustive), frame numbers: quick = all values within +-64 of each UTF-8 length boundary plus a stratified 2^20 sample, thorough = all 2^31; every enumerated value is distinct and counts as non-trivial",
     );
     ctx.assume("STREAMINFO block-size bound rules are checked under C04, not here");
-    let per = ctx.tier.scale(300, 12);
+    let per = ctx.tier.scale(600, 10);
     let co = CfgOpts { allow_multithread: true, ..Default::default() };
     ctx.search("stream", 16, per, &|| stream_case_strategy(co, InOpts::default(), true), check_stream);
     ctx.search("stream-small-blocks", 16, per, &|| stream_case_strategy(CfgOpts { allow_multithread: true, max_block: 300, ..Default::default() }, InOpts { budget: 6000, ..Default::default() }, true), check_stream);
